@@ -3,7 +3,7 @@
 # /repo HEAD, run the quick checks it is expected to trip (all checks with ALL=1), record exits.
 cd "$(dirname "$0")/.."
 RE="${1:-.}"
-RES=mutants/results.jsonl
+RES="${RESULTS:-mutants/results.jsonl}"
 for p in mutants/*.patch; do
   name=$(basename $p .patch)
   echo "$name" | grep -Eq "$RE" || continue
